@@ -5,7 +5,8 @@ package dagsync_test
 // (registration racing delivery, slow readers) is not decided. Here a fixed set of sequential
 // scenarios runs on the real subscriber: 1..4 listeners; each listener cancelled in turn; a listener
 // that does not read for 5 syncs; cancellation with notifications still queued; Close with
-// notifications queued; one failed announce-triggered sync. Only presence, content, order and
+// notifications queued; one failed announce-triggered sync; segmented syncs of 7 and 2 blocks with
+// segment sizes 1, 2, 3, 10 (the count covers all segments). Only presence, content, order and
 // channel closure are asserted; every wait has a generous watchdog, absence is checked after the
 // next event was seen (no timing-based false alarms).
 
@@ -244,6 +245,47 @@ func TestVerifC14Scenarios(t *testing.T) {
 			t.Fatal(err)
 		}
 		cases++
+	}
+	// segmented syncs: the count of the notification covers all segments of the sync (7 new blocks in
+	// segments of 1, 2, 3 and 10 blocks, then 2 more)
+	for _, seg := range []int64{1, 2, 3, 10} {
+		p := verifC14NewPub(t)
+		dstLsys := test.MkLinkSystem(dssync.MutexWrap(datastore.NewMapDatastore()))
+		hook := func(_ peer.ID, c cid.Cid, actions dagsync.SegmentSyncActions) {
+			n, err := dstLsys.Load(ipld.LinkContext{}, cidlink.Link{Cid: c}, basicnode.Prototype.Any)
+			if err != nil {
+				actions.FailSync(err)
+				return
+			}
+			prev, err := n.LookupByString("PreviousID")
+			if err != nil {
+				actions.SetNextSyncCid(cid.Undef)
+				return
+			}
+			lnk, err := prev.AsLink()
+			if err != nil {
+				actions.FailSync(err)
+				return
+			}
+			actions.SetNextSyncCid(lnk.(cidlink.Link).Cid)
+		}
+		sub, err := dagsync.NewSubscriber(dstHost, dstLsys, dagsync.BlockHook(hook), dagsync.SegmentDepthLimit(seg))
+		if err != nil {
+			t.Fatal(err)
+		}
+		ch, cancel := sub.OnSyncFinished()
+		h1 := p.extend(t, 7)
+		verifC14Sync(t, sub, p.peerInfo)
+		verifC14Expect(t, fmt.Sprintf("segmented sync (segment %d), 7 blocks", seg), ch, h1, p.peerInfo.ID, 7)
+		h2 := p.extend(t, 2)
+		verifC14Sync(t, sub, p.peerInfo)
+		verifC14Expect(t, fmt.Sprintf("segmented sync (segment %d), 2 more blocks", seg), ch, h2, p.peerInfo.ID, 2)
+		cancel()
+		verifC14ExpectClosed(t, "segmented scenario, cancelled listener", ch)
+		if err := sub.Close(); err != nil {
+			t.Fatal(err)
+		}
+		cases += 2
 	}
 	fmt.Fprintf(os.Stdout, "CASES %d\n", cases)
 }
